@@ -36,9 +36,9 @@ What is a theorem here (about the models of Model/C01.lean) and what is not:
   the real application) — the statement's "same gas used" clause is violated for such
   out-of-gas transactions, while the out-of-gas verdict, the block gas and hence the app
   hash are order-independent (`out_of_gas_order_independent`,
-  `block_gas_order_independent`).  `FinalizeRealmTransaction` has been fixed (sorted
-  first: `foreign_realm_gas_enumeration_independent`); `applyUnrestrictedAddrsChange` is
-  a known finding.
+  `block_gas_order_independent`).  Both places (`FinalizeRealmTransaction`,
+  `applyUnrestrictedAddrsChange`) have been fixed by sorting first, which makes the whole
+  meter outcome enumeration-independent (`foreign_realm_gas_enumeration_independent`).
 * NOT a theorem: GOMAXPROCS / scheduling, the database backends, app-hash equality
   of the real multistore, gas.  Those are only checked by the differential replay of
   the real application across configurations (harness/cmd/c01).
@@ -204,9 +204,9 @@ theorem flush_enumeration_independent {σ : Type} (apply : σ → List Nat × Op
 
 /-! ## Part 2b — gas charged inside a map range
 
-Found by this check in two places: `FinalizeRealmTransaction` (gnovm/pkg/gnolang/realm.go,
-since fixed: the touched realms are sorted first) and `applyUnrestrictedAddrsChange`
-(tm2/pkg/sdk/auth/params.go, a known finding: still a plain range over a set). -/
+Found by this check in two places, both fixed since by sorting before the loop:
+`FinalizeRealmTransaction` (gnovm/pkg/gnolang/realm.go, 49a301f457) and
+`applyUnrestrictedAddrsChange` (tm2/pkg/sdk/auth/params.go, 07a103d537). -/
 
 /-- The loop as it is now (touched foreign realms collected, sorted by path, then
 `SetPackageRealm` each): the whole outcome of the meter — the gas reported for the
@@ -262,9 +262,9 @@ example : gasUsed (chargeAll { limit := 3400000, consumed := 3380663 } [25190, 2
 example : chargeSorted { limit := 3400000, consumed := 3380663 } [([1], 25224), ([2], 25190)] =
     chargeSorted { limit := 3400000, consumed := 3380663 } [([2], 25190), ([1], 25224)] :=
   foreign_realm_gas_enumeration_independent _ (List.Perm.swap _ _ _) (by decide)
-/-- THE SAME DEFECT, STILL IN THE TREE: `applyUnrestrictedAddrsChange` (tm2/pkg/sdk/auth/
-params.go) ranges over the set of added addresses and charges one account read and one
-account write per entry.  Numbers measured on the real application (corpus/C01/03):
+/-- THE SAME DEFECT, SECOND PLACE (also fixed since: the addresses are sorted first):
+`applyUnrestrictedAddrsChange` (tm2/pkg/sdk/auth/params.go) ranged over the set of added
+addresses and charged one account read and one account write per entry.  Numbers measured on the real application (corpus/C01/03):
 1153595 consumed before the loop; u1: read 2516, write 249700; u2: read 1445, write
 248818; gas limit 1300000 — GasUsed 1405811 when the map yields u1 first, 1403858 when it
 yields u2 first. -/
